@@ -36,10 +36,11 @@ def podInfo (j : Json) : Except String Karp.Spec.Consolidation.PodInfo := do
   let phase := (← strO j "phase").getD ""
   pure { pod := ← strF j "pod", delCost := ← intO j "delCost", prio := ← intO j "priority", terminal := phase == "Succeeded" || phase == "Failed" }
 
-def simOf (s : Scenario) (j : Json) : Except String (Option Sim) := do
+def simOf (s : Scenario) (j : Json) (view : String → Scenario := fun _ => s) : Except String (Option Sim) := do
   if (← strF j "err") != "" then return none
   let claims ← listF claimJ j "claims"
-  pure (some { allScheduled := ← boolF j "allScheduled", claims := claims.map (ClaimJ.toModel s) })
+  -- the options of a new NodeClaim are its NodePool's instance types (that NodePool's prices)
+  pure (some { allScheduled := ← boolF j "allScheduled", claims := claims.map (fun c => ClaimJ.toModel (view c.pool) c) })
 
 def reqEq (a b : Req) : Bool :=
   a.key == b.key && a.complement == b.complement && sortedVals a.values == sortedVals b.values &&
@@ -49,6 +50,38 @@ def reqsEq (A B : Reqs) : Bool :=
   A.length == B.length && A.all (fun (k, r) => match B.lookup k with | some q => reqEq r q | none => false)
 
 def sortS (l : List String) : List String := (l.toArray.qsort (· < ·)).toList
+
+/-! ### price tables per NodePool (`tables` of the input) -/
+
+abbrev Tables := Karp.Spec.Consolidation.Tables
+
+def tablesOf (inp : Json) : Except String Tables :=
+  match fldOpt inp "tables" with
+  | some (.arr a) => a.toList.mapM (fun j => do pure ((← strF j "pool"), (← listF it j "its")))
+  | _ => pure []
+
+/-- the scenario as NodePool `pool` is charged for the catalog -/
+def viewOf (t : Tables) (s : Scenario) (pool : String) : Scenario := Karp.Spec.Consolidation.poolView t s pool
+
+/-- a candidate of the model: the node with the offerings of its type in ITS NodePool's table -/
+def candOfT (t : Tables) (s : Scenario) (n : Scn.Node) : Cand := candOf (viewOf t s n.pool) n
+
+/-- the tables must differ from the catalog in prices only (same types, same offerings in the same order) -/
+def tablesPriceOnly (t : Tables) (s : Scenario) : Bool :=
+  t.all (fun (_, its) => its.length == s.its.length && (its.zip s.its).all (fun (a, b) =>
+    a.name == b.name && a.cpu == b.cpu && a.mem == b.mem && a.pods == b.pods && a.arch == b.arch && a.overhead == b.overhead &&
+    a.offerings.length == b.offerings.length && (a.offerings.zip b.offerings).all (fun (x, y) =>
+      x.zone == y.zone && x.ct == y.ct && x.available == y.available && x.resID == y.resID)))
+
+/-- churn `unavail` reaches every NodePool's table -/
+def churnTables (t : Tables) (ch : Option Json) : Except String Tables :=
+  match ch with
+  | none => pure t
+  | some c => (c :: (match fldOpt c "also" with | some (.arr a) => a.toList | _ => [])).foldlM (fun t e => do
+      if (← strF e "kind") != "unavail" then pure t else
+      let itn ← strF e "it"
+      pure (t.map (fun (p, its) => (p, its.map (fun it =>
+        if it.name == itn then { it with offerings := it.offerings.map (fun o => { o with available := false }) } else it))))) t
 
 /-- one change applied to the scenario (the specification judges the command against the cluster as it is when
     the command is released) -/
@@ -163,15 +196,26 @@ def opRun (inp impl : Json) : Except String Resp := do
   let infos ← listF podInfo inp "podExt"
   let churned ← boolD impl "churned" false
   let s ← if churned then applyChurn s0 (fldOpt inp "churn") else pure s0
+  let tb0 ← tablesOf inp
+  if !tablesPriceOnly tb0 s0 then throw "harness error: a NodePool's price table differs from the catalog in more than prices"
+  let tb ← if churned then churnTables tb0 (fldOpt inp "churn") else pure tb0
   if (← strF impl "err") != "" then
     return { allowed := some true, spec := some true, why := "ComputeCommands returned an error" }
   let passed ← listF asStr impl "passed"
-  let simO ← match fldOpt impl "sim" with | some j => simOf s j | none => pure none
+  let simO ← match fldOpt impl "sim" with | some j => simOf s j (viewOf tb s) | none => pure none
   let verdict := (← strO impl "verdict").getD ""
   let expect := (← strO inp "expect").getD ""
   if expect != "" && expect != (if verdict == "" then "no-validation" else verdict) then
     return { allowed := some false, spec := some true,
              why := s!"validation was expected to end in '{expect}', the implementation's verdict is '{if verdict == "" then "no-validation" else verdict}'" }
+  -- (corpus witnesses) the decision the witness documents: none | delete | replace
+  let expectD := (← strO inp "expectDecision").getD ""
+  let gotD ← match fldOpt impl "cmd" with | some cj => strF cj "decision" | none => pure "none"
+  let whyE := if expectD != "" && expectD != gotD then
+      s!"the witness documents the decision '{expectD}'; the implementation's decision is '{gotD}'" else ""
+  -- (a released command is judged by the specification first: a violated property is the stronger verdict)
+  if whyE != "" && (fldOpt impl "cmd").isNone then
+    return { allowed := some false, spec := some true, why := whyE }
   match fldOpt impl "cmd" with
   | none =>
     if churned && verdict.startsWith "rejected:" then
@@ -189,7 +233,7 @@ def opRun (inp impl : Json) : Except String Resp := do
       match s.node? cn with
       | none => throw s!"unknown candidate {cn}"
       | some n =>
-        let dec := Karp.Consolidate.compute ridKey gate [candOf s n] sim
+        let dec := Karp.Consolidate.compute ridKey gate [candOfT tb s n] sim
         let (ok, why) := agrees dec sim.claims.head? none
         pure { allowed := some ok, spec := some true, why := why }
     | _, _ => pure { allowed := some true, spec := some true }
@@ -203,7 +247,7 @@ def opRun (inp impl : Json) : Except String Resp := do
       { method := method, cands := candNames, repl := repl.map (fun c => c.toScn),
         existing := results.existing, errors := results.errors, newClaims := newClaims }
     let cands := scenarioCandidates s { existing := results.existing, claims := cmd.repl, errors := results.errors }
-    let v := Karp.Spec.Consolidation.commandOK s ridKey gate infos cmd cands (witnessOnly := !churned)
+    let v := Karp.Spec.Consolidation.commandOKT tb s ridKey gate infos cmd cands (witnessOnly := !churned)
     -- the model: the decision computed from the simulation of the command's candidate set
     let (ok, why) ← if method == "empty" then
         -- Emptiness: the candidates must be empty by the model's `isEmpty`
@@ -222,7 +266,7 @@ def opRun (inp impl : Json) : Except String Resp := do
       else match simO with
       | none => pure (true, "")
       | some sim =>
-        let mc := (candNames.filterMap s.node?).map (candOf s)
+        let mc := (candNames.filterMap s.node?).map (candOfT tb s)
         -- prices the implementation attached to the candidates
         let implPrices ← (← arrF cj "cands").mapM (fun c => do pure ((← strF c "node"), (← natF c "price")))
         let priceBad := mc.find? (fun c => implPrices.lookup c.name != some c.price)
@@ -231,7 +275,7 @@ def opRun (inp impl : Json) : Except String Resp := do
         | none =>
           let dec := if method == "multi" then Karp.Consolidate.multiStep ridKey gate mc sim else Karp.Consolidate.compute ridKey gate mc sim
           pure (agrees dec sim.claims.head? (some (decision, repl)))
-    pure (specVerdict v ok why)
+    pure (specVerdict v (ok && whyE == "") (if whyE != "" then whyE else why))
 
 /-- `c06.compute`: `computeConsolidation` (before validation) on an arbitrary candidate subset, then
     `filterOutSameInstanceType`; exact comparison with `compute` / `multiStep`, specification on every decision -/
@@ -246,8 +290,10 @@ def opCompute (inp impl : Json) : Except String Resp := do
     return { allowed := some true, spec := some true, why := "computeConsolidation returned an error" }
   let passed ← listF asStr impl "passed"
   if passed.isEmpty then return { allowed := some true, spec := some true }
-  let simO ← match fldOpt impl "sim" with | some j => simOf s j | none => pure none
-  let mc := (passed.filterMap s.node?).map (candOf s)
+  let tb ← tablesOf inp
+  if !tablesPriceOnly tb s then throw "harness error: a NodePool's price table differs from the catalog in more than prices"
+  let simO ← match fldOpt impl "sim" with | some j => simOf s j (viewOf tb s) | none => pure none
+  let mc := (passed.filterMap s.node?).map (candOfT tb s)
   let cmdO ← match fldOpt impl "cmd" with
     | none => pure none
     | some cj => do
@@ -288,7 +334,7 @@ def opCompute (inp impl : Json) : Except String Resp := do
       { method := "compute", cands := candNames, repl := repl.map (fun c => c.toScn),
         existing := results.existing, errors := results.errors, newClaims := newClaims }
     let cands := scenarioCandidates s { existing := results.existing, claims := cmd.repl, errors := results.errors }
-    pure (specVerdict (Karp.Spec.Consolidation.commandOK s ridKey gate infos cmd cands) ok why)
+    pure (specVerdict (Karp.Spec.Consolidation.commandOKT tb s ridKey gate infos cmd cands) ok why)
 
 /-- the reschedulable pods of a node as the model's `isEmpty` reads them -/
 def podCosts (infos : List Karp.Spec.Consolidation.PodInfo) (n : Scn.Node) : List Karp.Consolidate.PodCost :=
@@ -460,7 +506,7 @@ def opIsEmpty (inp impl : Json) : Except String Resp := do
 
 def handle : Handler := fun op inp impl =>
   match op with
-  | "c06.single" | "c06.multi" | "c06.empty" | "c06.validate" => opRun inp impl
+  | "c06.single" | "c06.multi" | "c06.empty" | "c06.validate" | "c06.tables" | "c06.cap" => opRun inp impl
   | "c06.emptyvalidate" => opEmptyValidate inp impl
   | "c06.compute" => opCompute inp impl
   | "c06.worst" => opWorst inp impl
